@@ -23,6 +23,8 @@ MsinOk(e) == LET d == MsinDec(e.b)  r == e.res IN
   /\ r.reenc_mt + B(d.verb) = e.b                                \* u8::from(&MessageType) | verbose bit
   /\ r.pv = "msg" /\ r.verb = d.verb /\ r.pmt = d.mt /\ r.reenc = e.b     \* through the parser and the writer
 TiOk(e) == LET r == e.res IN
+  /\ r.v # "panic" /\ e.second # "panic"                           \* decoding either refuses or yields a description
+  /\ ~Accepts(e.w) => e.second # "msg"                             \* a refused word is refused wherever it stands in a message
   /\ (r.v = "ok") <=> Accepts(e.w)                               \* accepted exactly for one supported kind with a supported width
   /\ r.v = "ok" =>
        /\ r.re.v = "ok" /\ r.re.desc = r.desc                    \* the encoding decodes to the same description
